@@ -67,7 +67,7 @@ Section AttrProp.
     unfold finish_element. intros Hpa Hc H.
     destruct (negb (push_children_ok (e_kind a) children) && is_nonempty_l children); [discriminate|].
     set (children' := match e_kind a with
-                      | KP | KRt | KRtc => match children with [] => [] | _ => lwsp_children (isd_attrs a st) children end
+                      | KP | KRt | KRp | KRtc => match children with [] => [] | _ => lwsp_children (isd_attrs a st) children end
                       | _ => children end) in H.
     assert (Hc' : Forall allq children').
     { unfold children'. destruct (e_kind a); try exact Hc; (destruct children; [constructor | apply lwsp_children_allq; exact Hc]). }
